@@ -22,42 +22,43 @@ From Otto Require Import C02.Model C02.Proofs C02.Inventory C02.Table C02.Corr C
 Import ListNotations.
 Open Scope Z_scope.
 
-(* error.go catchPanic over the closed sum of payloads: a JavaScript payload
-   (whose conversion runs no script) becomes an error result, anything that is
-   not a JavaScript payload is re-panicked as the ejected value, and nothing
-   is ever swallowed into a normal return *)
+(* error.go catchPanic over the closed sum of payloads: every JavaScript payload
+   becomes an error result (since dae90c4 also a thrown object whose own
+   toString throws: finding C02-throw-tostring, repaired), anything that is not a
+   JavaScript payload is re-panicked as the ejected value, and nothing is ever
+   swallowed into a normal return *)
 Theorem C02_catchPanic_classifies : forall p,
-  (safe p = true -> exists c, catch_panic p = AErr c) /\
+  (is_js p = true -> exists c, catch_panic p = AErr c) /\
   (is_js p = false -> catch_panic p = APanic (Raw (eject p))) /\
   catch_panic p <> ARet.
 Proof. exact catch_panic_classifies. Qed.
 Print Assumptions C02_catchPanic_classifies.
 
-Theorem C02_catchPanic_escape_iff : forall p, (exists q, catch_panic p = APanic q) <-> safe p = false.
+Theorem C02_catchPanic_escape_iff : forall p, (exists q, catch_panic p = APanic q) <-> is_js p = false.
 Proof. exact catch_panic_escape_iff. Qed.
 Print Assumptions C02_catchPanic_escape_iff.
 
-(* finding C02-throw-tostring: one JavaScript payload does escape *)
-Theorem C02_catchPanic_tostring_refuted : exists p, is_js p = true /\ exists q, catch_panic p = APanic q.
-Proof. exact catch_panic_tostring_refuted. Qed.
-Print Assumptions C02_catchPanic_tostring_refuted.
-
 (* runtime.go tryCatchEvaluate: whatever the payload, what leaves a try statement is catchable or a JavaScript TypeError *)
 Theorem C02_try_never_foreign : forall p,
-  match try_catch p with TCaught _ => True | TRaised q => safe q = true end.
+  match try_catch p with TCaught _ => True | TRaised q => is_js q = true end.
 Proof. exact try_catch_never_foreign. Qed.
 Print Assumptions C02_try_never_foreign.
 
 (* the reduction: a script all of whose callees raise only JavaScript payloads cannot make Run panic,
    for every limit, every shape of calls, try statements, handlers and rethrows *)
-Theorem C02_no_foreign_no_escape : forall c L, leaves safe c = true -> forall q, run L c <> APanic q.
+Theorem C02_no_foreign_no_escape : forall c L, leaves is_js c = true -> forall q, run L c <> APanic q.
 Proof. exact run_no_escape. Qed.
 Print Assumptions C02_no_foreign_no_escape.
 
 (* ... and a payload raised below the entry point escapes exactly when it is not one *)
-Theorem C02_escape_iff_foreign : forall L p, (exists q, run L (Raise p) = APanic q) <-> safe p = false.
+Theorem C02_escape_iff_foreign : forall L p, (exists q, run L (Raise p) = APanic q) <-> is_js p = false.
 Proof. exact run_raise_escape_iff. Qed.
 Print Assumptions C02_escape_iff_foreign.
+
+(* a try statement between the callee and the entry point hides every payload, a foreign one too *)
+Theorem C02_try_hides_every_payload : forall L p h, leaves is_js h = true -> forall q, run L (Try (Raise p) h) <> APanic q.
+Proof. exact run_try_no_escape. Qed.
+Print Assumptions C02_try_hides_every_payload.
 
 (* stack depth guard, Test_stackLimit semantics: global scope is depth 0, limit L admits L-1 nested calls *)
 Theorem C02_stack_guard : forall L d, 1 <= L ->
@@ -128,11 +129,12 @@ Proof. exact expect_never_panic. Qed.
 Print Assumptions C02_expectation_excludes_panic.
 
 (* non-vacuity *)
-Example C02_safe_met : safe (Exc (BOttoError TypeErr)) = true /\ catch_panic (Exc (BOttoError TypeErr)) = AErr TypeErr.
-Proof. split; reflexivity. Qed.
+Example C02_js_met : is_js (Exc (BOttoError TypeErr)) = true /\ catch_panic (Exc (BOttoError TypeErr)) = AErr TypeErr
+  /\ catch_panic (Exc (BValue VStrThrows)) = AErr OtherThrown.
+Proof. repeat split. Qed.
 Example C02_foreign_met : is_js (Raw BRuntimeStr) = false /\ run 0 (Call (Raise (Raw BRuntimeStr))) = APanic (Raw BRuntimeStr).
 Proof. split; reflexivity. Qed.
-Example C02_leaves_met : leaves safe (Call (Try (Call (Raise (Exc (BValue VPlain)))) Rethrow)) = true
+Example C02_leaves_met : leaves is_js (Call (Try (Call (Raise (Exc (BValue VPlain)))) Rethrow)) = true
   /\ run 3 (Call (Try (Call (Raise (Exc (BValue VPlain)))) Rethrow)) = AErr OtherThrown.
 Proof. split; reflexivity. Qed.
 Example C02_try_swallows_foreign : run 0 (Try (Call (Raise (Raw BHost))) Ret) = AErr TypeErr.
